@@ -7,6 +7,8 @@ import z3
 z3.set_param('model.completion', True)
 
 BoolT = (bool, z3.BoolRef)
+import os
+_TRACE = bool(os.environ.get('MIRSYM_TRACE'))
 
 
 def is_sym(x):
@@ -127,23 +129,173 @@ def toz(x):
     return x
 
 
+def _exact_div(n, d):
+    """if n is syntactically k*t (or a sum of such) with d | k, return n/d exactly"""
+    try:
+        t = z3.simplify(n, som=True)
+    except Exception:
+        return None
+    if z3.is_int_value(t):
+        v = t.as_long()
+        return v // d if v % d == 0 else None
+
+    def term(x):
+        if z3.is_int_value(x):
+            v = x.as_long()
+            return z3.IntVal(v // d) if v % d == 0 else None
+        if z3.is_app(x) and x.decl().kind() == z3.Z3_OP_MUL:
+            ch = x.children()
+            if z3.is_int_value(ch[0]):
+                k = ch[0].as_long()
+                if k % d == 0:
+                    rest = ch[1] if len(ch) == 2 else z3.Product(*ch[1:])
+                    kk = k // d
+                    return rest if kk == 1 else kk * rest
+        return None
+    if z3.is_app(t) and t.decl().kind() == z3.Z3_OP_ADD:
+        parts = [term(x) for x in t.children()]
+        if all(p is not None for p in parts):
+            return z3.Sum(*parts)
+        return None
+    return term(t)
+
+
+def _mk_default():
+    return z3.Solver()
+
+
+def _mk_qfnia():
+    return z3.SolverFor('QF_NIA')
+
+
 class SolverCtx:
     """One per explored path: the incremental solver, path condition, fresh names,
     the division memo and statistics."""
 
     def __init__(self, stats, timeout_ms=20000, seed=0):
-        self.s = z3.Solver()
-        self.s.set('timeout', timeout_ms)
-        if seed:
-            self.s.set('random_seed', seed & 0x7fffffff)
         self.timeout_ms = timeout_ms
+        self.cur_timeout_ms = timeout_ms
+        self.seed = seed
+        self.last_solver = None
         self.pc = []
         self.n = 0
         self.divmemo = {}
         self.bydiv = {}
+        self.bounds = {}
+        self.pinned = []
+        self.icache = {}
         self.sqrtmemo = {}
         self.uf = {}
         self.stats = stats
+
+    # ---- interval reasoning (cheap pre-check before calling the solver)
+    def set_bounds(self, v, lo, hi):
+        self.bounds[v.get_id()] = (lo, hi)
+        self.pinned.append(v)
+
+    def interval(self, t, depth=0):
+        """(lo, hi) with None = unbounded; sound w.r.t. the bounds asserted at variable creation"""
+        if isinstance(t, bool):
+            return None
+        if isinstance(t, int):
+            return (t, t)
+        if z3.is_int_value(t):
+            v = t.as_long()
+            return (v, v)
+        tid_ = t.get_id()
+        b = self.bounds.get(tid_)
+        if b is not None:
+            return b
+        c = self.icache.get(tid_)
+        if c is not None:
+            return c[0]
+        if depth > 60 or not z3.is_app(t):
+            return (None, None)
+        k = t.decl().kind()
+        ch = t.children()
+        r = (None, None)
+        if k == z3.Z3_OP_ADD:
+            lo, hi = 0, 0
+            for x in ch:
+                a, b2 = self.interval(x, depth + 1)
+                lo = None if (lo is None or a is None) else lo + a
+                hi = None if (hi is None or b2 is None) else hi + b2
+            r = (lo, hi)
+        elif k == z3.Z3_OP_SUB and len(ch) == 2:
+            a1, b1 = self.interval(ch[0], depth + 1)
+            a2, b2 = self.interval(ch[1], depth + 1)
+            r = (None if (a1 is None or b2 is None) else a1 - b2, None if (b1 is None or a2 is None) else b1 - a2)
+        elif k == z3.Z3_OP_UMINUS:
+            a1, b1 = self.interval(ch[0], depth + 1)
+            r = (None if b1 is None else -b1, None if a1 is None else -a1)
+        elif k == z3.Z3_OP_MUL:
+            lo, hi = 1, 1
+            ok = True
+            for x in ch:
+                a, b2 = self.interval(x, depth + 1)
+                if a is None or a < 0:
+                    ok = False
+                    break
+                lo = lo * a
+                hi = None if (hi is None or b2 is None) else hi * b2
+            r = (lo, hi) if ok else (None, None)
+        elif k == z3.Z3_OP_ITE:
+            a1, b1 = self.interval(ch[1], depth + 1)
+            a2, b2 = self.interval(ch[2], depth + 1)
+            r = (None if (a1 is None or a2 is None) else min(a1, a2), None if (b1 is None or b2 is None) else max(b1, b2))
+        self.icache[tid_] = (r, t)
+        return r
+
+    def decide(self, c, depth=0):
+        """True / False when the condition is decided by intervals alone, else None"""
+        if isinstance(c, bool):
+            return c
+        if not z3.is_app(c) or depth > 8:
+            return None
+        k = c.decl().kind()
+        ch = c.children()
+        if k == z3.Z3_OP_NOT:
+            r = self.decide(ch[0], depth + 1)
+            return None if r is None else (not r)
+        if k == z3.Z3_OP_AND:
+            res = True
+            for x in ch:
+                r = self.decide(x, depth + 1)
+                if r is False:
+                    return False
+                if r is None:
+                    res = None
+            return res
+        if k == z3.Z3_OP_OR:
+            res = False
+            for x in ch:
+                r = self.decide(x, depth + 1)
+                if r is True:
+                    return True
+                if r is None:
+                    res = None
+            return res
+        if k in (z3.Z3_OP_LE, z3.Z3_OP_LT, z3.Z3_OP_GE, z3.Z3_OP_GT, z3.Z3_OP_EQ) and len(ch) == 2 and z3.is_int(ch[0]):
+            a1, b1 = self.interval(ch[0])
+            a2, b2 = self.interval(ch[1])
+            if k == z3.Z3_OP_GE or k == z3.Z3_OP_GT:
+                a1, b1, a2, b2 = a2, b2, a1, b1
+                k = z3.Z3_OP_LE if k == z3.Z3_OP_GE else z3.Z3_OP_LT
+            # now: ch0' (a1,b1)  <=/<  ch1' (a2,b2)
+            if k == z3.Z3_OP_LE:
+                if b1 is not None and a2 is not None and b1 <= a2:
+                    return True
+                if a1 is not None and b2 is not None and a1 > b2:
+                    return False
+            elif k == z3.Z3_OP_LT:
+                if b1 is not None and a2 is not None and b1 < a2:
+                    return True
+                if a1 is not None and b2 is not None and a1 >= b2:
+                    return False
+            else:
+                if (b1 is not None and a2 is not None and b1 < a2) or (a1 is not None and b2 is not None and a1 > b2):
+                    return False
+        return None
 
     def fresh(self, base, sort='int'):
         self.n += 1
@@ -157,13 +309,16 @@ class SolverCtx:
             return
         if c is False:
             self.pc.append(z3.BoolVal(False))
-            self.s.add(z3.BoolVal(False))
             return
         self.pc.append(c)
-        self.s.add(c)
 
     def check(self, *extra):
         """returns 'sat' | 'unsat' | 'unknown' for pc ∧ extra"""
+        if len(extra) == 1 and not isinstance(extra[0], bool):
+            dd = self.decide(extra[0])
+            if dd is False:
+                self.stats['interval_decided'] = self.stats.get('interval_decided', 0) + 1
+                return 'unsat'
         ex = []
         for e in extra:
             if e is True:
@@ -172,8 +327,13 @@ class SolverCtx:
                 return 'unsat'
             ex.append(e)
         t0 = time.time()
-        r = self.s.check(*ex)
+        if _TRACE:
+            import sys
+            print('[smt] check %s' % (str(ex)[:300].replace('\n', ' '),), file=sys.stderr, flush=True)
+        r = self._solve(ex)
         dt = time.time() - t0
+        if _TRACE:
+            print('[smt]   -> %s %.2fs' % (r, dt), file=sys.stderr, flush=True)
         self.stats['queries'] = self.stats.get('queries', 0) + 1
         self.stats['solver_s'] = self.stats.get('solver_s', 0.0) + dt
         if dt > self.stats.get('max_query_s', 0.0):
@@ -185,8 +345,36 @@ class SolverCtx:
         self.stats['unknown'] = self.stats.get('unknown', 0) + 1
         return 'unknown'
 
+    def _solve(self, ex):
+        """non-incremental: a fresh solver per query decides this non-linear arithmetic
+        orders of magnitude faster than z3's incremental core (measured: 0.02 s vs 11 s)"""
+        tmo = self.cur_timeout_ms
+        last = z3.unknown
+        for mk in (_mk_default, _mk_qfnia):
+            s = mk()
+            s.set('timeout', tmo)
+            if self.seed:
+                try:
+                    s.set('random_seed', self.seed & 0x7fffffff)
+                except Exception:
+                    pass
+            s.add(*self.pc)
+            if ex:
+                s.add(*ex)
+            r = s.check()
+            if r != z3.unknown:
+                self.last_solver = s
+                return r
+            last = r
+            tmo = max(tmo // 2, 500)
+        self.last_solver = None
+        return last
+
+    def set_timeout(self, ms):
+        self.cur_timeout_ms = ms
+
     def model(self):
-        return self.s.model()
+        return self.last_solver.model()
 
     # ---- arithmetic with lemmas
     def fdiv(self, n, d):
@@ -198,9 +386,25 @@ class SolverCtx:
         key = (tid(n), tid(d))
         if key in self.divmemo:
             return self.divmemo[key][0]
+        # exact division of a constant factor: (k*t)/d with d | k
+        if is_conc(d) and d > 0:
+            ex = _exact_div(n, d)
+            if ex is not None:
+                self.divmemo[key] = (ex, 0, n, d)
+                return ex
         q = self.fresh('q')
         r = self.fresh('r')
         self.add(z3.And(toz(n) == q * toz(d) + r, r >= 0, r < toz(d), q >= 0))
+        nlo, nhi = self.interval(n)
+        dlo, dhi = self.interval(d)
+        qlo = 0 if (nlo is None or dhi is None or dhi <= 0 or nlo < 0) else nlo // dhi
+        qhi = None if (nhi is None or dlo is None or dlo <= 0) else nhi // dlo
+        self.set_bounds(q, qlo, qhi)
+        self.set_bounds(r, 0, None if dhi is None else dhi - 1)
+        if qhi is not None:
+            self.add(q <= qhi)
+        if qlo:
+            self.add(q >= qlo)
         # valid lemmas relating divisions by the same divisor (monotonicity, shift by one divisor)
         dk = key[1]
         zn, zd = toz(n), toz(d)
@@ -209,7 +413,7 @@ class SolverCtx:
                             z3.Implies(zn - n2 == zd, z3.And(q == q2 + 1, r == r2)),
                             z3.Implies(n2 - zn == zd, z3.And(q2 == q + 1, r == r2))))
         self.bydiv.setdefault(dk, []).append((q, r, zn))
-        self.divmemo[key] = (q, r)
+        self.divmemo[key] = (q, r, n, d)
         return q
 
     def fmod(self, n, d):
@@ -224,10 +428,10 @@ class SolverCtx:
             return math.isqrt(n)
         key = tid(n)
         if key in self.sqrtmemo:
-            return self.sqrtmemo[key]
+            return self.sqrtmemo[key][0]
         r = self.fresh('sqrt')
         self.add(z3.And(r >= 0, r * r <= n, (r + 1) * (r + 1) > n))
-        self.sqrtmemo[key] = r
+        self.sqrtmemo[key] = (r, n)
         return r
 
     def ufapp(self, name, args, lo=0, hi=None):
